@@ -515,8 +515,10 @@ class EQLTranslator:
         """
         if self._is_attribute_equality_join(query):
             join_result = self._handle_attribute_equality_join(query)
-            if join_result is not None:
+            if join_result is True:
                 return None
+            if join_result is not None:
+                return join_result
 
         left = self._translate_comparator_operand(query.left)
         right = self._translate_comparator_operand(query.right)
@@ -553,7 +555,7 @@ class EQLTranslator:
         Handle an attribute equality join.
 
         :param query: The comparator query
-        :return: True if JOIN was performed, None otherwise
+        :return: True if a JOIN was performed, the condition if the table was joined already, None if this is no join
         """
         resolver = AttributeChainResolver()
 
@@ -596,11 +598,12 @@ class EQLTranslator:
         else:
             target_dao, target_fk, anchor_fk = left_dao, left_fk, right_fk
 
-        if not self.join_manager.is_table_joined(target_dao):
-            onclause = target_fk == anchor_fk
-            self.sql_query = self.sql_query.join(target_dao, onclause=onclause)
-            self.join_manager.add_table_join(target_dao)
-
+        condition = target_fk == anchor_fk
+        if self.join_manager.is_table_joined(target_dao):
+            # the table is joined already: this equality is a further condition on the joined rows
+            return condition
+        self.sql_query = self.sql_query.join(target_dao, onclause=condition)
+        self.join_manager.add_table_join(target_dao)
         return True
 
     def _translate_comparator_operand(self, operand: Any) -> Any:
